@@ -8,5 +8,5 @@ dirs=(); for i in "${ids[@]}"; do dirs+=("/verif/refactors/$i"); done
 out=$(tools/eval_refactor.sh "${dirs[@]}" 2>&1)
 echo "$out"
 if echo "$out" | grep -q "alarms=\[[^]]"; then echo "FALSE ALARMS PRESENT"; exit 1; fi
-if echo "$out" | grep -q "suite=\[[^o]"; then echo "A PATCH NO LONGER PASSES THE SUITE"; exit 1; fi
+if echo "$out" | grep -q "suite=\[[^o]\|DOES NOT APPLY"; then echo "A PATCH NO LONGER APPLIES OR PASSES THE SUITE"; exit 1; fi
 echo "all ${#ids[@]} behaviour-preserving changes raise no alarm"
